@@ -2135,28 +2135,28 @@ func (p *wat2cWorker) buildFunc_ins(w io.Writer, fn *ast.Func, stk *valueTypeSta
 	case token.INS_I32_TRUNC_F32_S:
 		sp0 := stk.Pop(token.F32)
 		ret0 := stk.Push(token.I32)
-		fmt.Fprintf(w, "%sR%d.i32 = (int32_t)(truncf(R%d.f32)); // %s\n",
+		fmt.Fprintf(w, "%sR%d.i32 = WASM_TRUNC(int32_t, truncf(R%d.f32), -2147483649.0, 2147483648.0); // %s\n",
 			indent, ret0, sp0,
 			insString(i),
 		)
 	case token.INS_I32_TRUNC_F32_U:
 		sp0 := stk.Pop(token.F32)
 		ret0 := stk.Push(token.I32)
-		fmt.Fprintf(w, "%sR%d.i32 = (int32_t)(uint32_t)(truncf(R%d.f32)); // %s\n",
+		fmt.Fprintf(w, "%sR%d.i32 = (int32_t)WASM_TRUNC(uint32_t, truncf(R%d.f32), -1.0, 4294967296.0); // %s\n",
 			indent, ret0, sp0,
 			insString(i),
 		)
 	case token.INS_I32_TRUNC_F64_S:
 		sp0 := stk.Pop(token.F64)
 		ret0 := stk.Push(token.I32)
-		fmt.Fprintf(w, "%sR%d.i32 = (int32_t)(trunc(R%d.f64)); // %s\n",
+		fmt.Fprintf(w, "%sR%d.i32 = WASM_TRUNC(int32_t, trunc(R%d.f64), -2147483649.0, 2147483648.0); // %s\n",
 			indent, ret0, sp0,
 			insString(i),
 		)
 	case token.INS_I32_TRUNC_F64_U:
 		sp0 := stk.Pop(token.F64)
 		ret0 := stk.Push(token.I32)
-		fmt.Fprintf(w, "%sR%d.i32 = (int32_t)(uint32_t)(trunc(R%d.f64)); // %s\n",
+		fmt.Fprintf(w, "%sR%d.i32 = (int32_t)WASM_TRUNC(uint32_t, trunc(R%d.f64), -1.0, 4294967296.0); // %s\n",
 			indent, ret0, sp0,
 			insString(i),
 		)
@@ -2177,28 +2177,28 @@ func (p *wat2cWorker) buildFunc_ins(w io.Writer, fn *ast.Func, stk *valueTypeSta
 	case token.INS_I64_TRUNC_F32_S:
 		sp0 := stk.Pop(token.F32)
 		ret0 := stk.Push(token.I64)
-		fmt.Fprintf(w, "%sR%d.i64 = (int64_t)(truncf(R%d.f32)); // %s\n",
+		fmt.Fprintf(w, "%sR%d.i64 = WASM_TRUNC(int64_t, truncf(R%d.f32), -9223372036854777856.0, 9223372036854775808.0); // %s\n",
 			indent, ret0, sp0,
 			insString(i),
 		)
 	case token.INS_I64_TRUNC_F32_U:
 		sp0 := stk.Pop(token.F32)
 		ret0 := stk.Push(token.I64)
-		fmt.Fprintf(w, "%sR%d.i64 = (int64_t)(uint64_t)(truncf(R%d.f32)); // %s\n",
+		fmt.Fprintf(w, "%sR%d.i64 = (int64_t)WASM_TRUNC(uint64_t, truncf(R%d.f32), -1.0, 18446744073709551616.0); // %s\n",
 			indent, ret0, sp0,
 			insString(i),
 		)
 	case token.INS_I64_TRUNC_F64_S:
 		sp0 := stk.Pop(token.F64)
 		ret0 := stk.Push(token.I64)
-		fmt.Fprintf(w, "%sR%d.i64 = (int64_t)(trunc(R%d.f64)); // %s\n",
+		fmt.Fprintf(w, "%sR%d.i64 = WASM_TRUNC(int64_t, trunc(R%d.f64), -9223372036854777856.0, 9223372036854775808.0); // %s\n",
 			indent, ret0, sp0,
 			insString(i),
 		)
 	case token.INS_I64_TRUNC_F64_U:
 		sp0 := stk.Pop(token.F64)
 		ret0 := stk.Push(token.I64)
-		fmt.Fprintf(w, "%sR%d.i64 = (int64_t)(uint64_t)(trunc(R%d.f64)); // %s\n",
+		fmt.Fprintf(w, "%sR%d.i64 = (int64_t)WASM_TRUNC(uint64_t, trunc(R%d.f64), -1.0, 18446744073709551616.0); // %s\n",
 			indent, ret0, sp0,
 			insString(i),
 		)
